@@ -283,7 +283,7 @@ func c12Exec(c fw.Case) *fw.Result {
 func c12Cases(tier string, seed uint64) []fw.Case {
 	nCases, per := 24, int64(10)
 	if tier == "thorough" {
-		nCases, per = 192, 25
+		nCases, per = 1920, 50
 	}
 	var cs []fw.Case
 	// enumerated: n versions (n-1 of them in one second, after the parent) x child at idx indices
